@@ -360,6 +360,25 @@ result_type parse_url_impl(std::string_view user_input,
     return url;
   }
 
+  // Normalization (percent-encoding, an added '/', inherited base components)
+  // can make the URL longer than the input: every successful exit, including
+  // the early returns below, must check the result against the limit.
+  auto enforce_max_length = [&url, max_input_length]() {
+    if constexpr (store_values) {
+      if (url.is_valid) {
+        if constexpr (result_type_is_ada_url_aggregator) {
+          if (url.buffer.size() > max_input_length) {
+            url.is_valid = false;
+          }
+        } else {
+          if (url.get_href_size() > max_input_length) {
+            url.is_valid = false;
+          }
+        }
+      }
+    }
+  };
+
   // Simple absolute http(s) fast path (before tabs/newline scan).
   // Skip digit-led hosts (IPv4) with a cheap peek.
   if constexpr (store_values) {
@@ -560,6 +579,7 @@ result_type parse_url_impl(std::string_view user_input,
             }
           }
           url.update_unencoded_base_hash(*fragment);
+          enforce_max_length();
           return url;
         }
         // Otherwise, if base's scheme is not "file", set state to relative
@@ -695,6 +715,7 @@ result_type parse_url_impl(std::string_view user_input,
                 url.update_unencoded_base_hash(*fragment);
               }
             }
+            enforce_max_length();
             return url;
           }
           input_position = end_of_authority + 1;
@@ -912,6 +933,7 @@ result_type parse_url_impl(std::string_view user_input,
             url.update_unencoded_base_hash(*fragment);
           }
         }
+        enforce_max_length();
         return url;
       }
       case state::HOST: {
@@ -1042,6 +1064,7 @@ result_type parse_url_impl(std::string_view user_input,
                 url.update_unencoded_base_hash(*fragment);
               }
             }
+            enforce_max_length();
             return url;
           }
           // If c is neither U+002F (/) nor U+005C (\), then decrease pointer
